@@ -22,8 +22,10 @@ from .. import common as C
 from . import _an
 
 PROP = "C07"
-GEN_REGIONS = ["Attrs", "CoreKernels", "CudaKernels"]
+GEN_REGIONS = ["Attrs", "CoreKernels", "CudaKernels", "NumpyKernels"]
 THEOREMS = {
+    # NumPy backend, translated from core.py each run: same estimator (hence same Hxy sign and value) as Numba/CUDA
+    "SpecKitV.Props.NumpyKernelsGen": ["np_numba_agree_win_only_auto", "np_numba_agree_win_only_csd", "np_numba_agree_detrend0_auto", "np_numba_agree_detrend0_csd", "np_numba_agree_poly_auto", "np_numba_agree_poly_csd", "np_cross_is_X_conjY_win_only", "np_cross_is_X_conjY_detrend0", "np_cross_is_X_conjY_poly"],
     "SpecKitV.Props.AttrsA": ["tf_static_gain", "tf_zero_input", "tf_is_Y_over_X", "coh_one_of_eq"],
     "SpecKitV.Lemmas.Detrend": ["detr_linear", "segDFT_scale"],
     "SpecKitV.Props.C01": ["numba_cuda_agree_win_only_csd", "numba_cuda_agree_win_only_auto", "numba_cuda_agree_detrend0_csd",
